@@ -528,6 +528,10 @@ func (fc *FnCtx) loadGlobal(s *State, g *ssa.Global) Val {
 		return v
 	case *types.Interface:
 		return opaqueVal(mkConst(name, SInt), et)
+	case *types.Struct:
+		if st := et.Underlying().(*types.Struct); st.NumFields() == 0 {
+			return Val{K: VStruct, Typ: et} // e.g. encoding/binary.BigEndian: a value without state
+		}
 	}
 	panic(unsupported("load of global " + g.Name() + " of type " + et.String()))
 }
